@@ -820,6 +820,9 @@ class Interp:
                 if is_prop:
                     return self.call(clo, [], {}, node)
                 return clo
+            if attr in v.fields.get('__unmodelled__', ()):
+                # the real constructor sets this attribute, the contract's abstract state does not model it: nothing can be concluded
+                raise Unsupported(f'attribute {attr!r} of {v.cls} is set by its constructor but is not part of the abstract pre-state of the contract')
             if v.fields.get('__strict__'):
                 raise _Raise(ExcVal('AttributeError', (attr,)))
             o = Opaque(f'{v.cls}.{attr}')
